@@ -1537,7 +1537,7 @@ pub async fn wipeout(w: &mut World, m: &mut Mon, r: &mut R, g: usize, lender: us
     }
     let saved_ca = save_price(w, ca);
     scale_price_any(w, ca, 1e-12).await;
-    if !exact && r.gen_bool(if m.r.is("C02") { 1.0 } else { 0.5 }) {
+    if !exact && r.gen_bool(if m.r.is("C02") || m.r.is("C16") { 1.0 } else { 0.5 }) {
         // the worthless collateral is seized completely, which leaves an account that owes and
         // holds nothing: its owner must not be able to close it (the debt would lose its record)
         let pos = {
